@@ -46,7 +46,7 @@ func checkC28(r *core.Run, p *core.Program) {
 	info := pkg.TypesInfo
 
 	sites := ioReadSites(p, "cbe", "cte", "ce", "rules", "builder", "iterator")
-	r.Floor("C28.raw-reader", "io.Reader.Read call sites", len(sites), 4)
+	r.Floor("C28.raw-reader", "io.Reader.Read call sites", len(sites), 2)
 	// adapter types: named types of package cbe with a method Read([]byte)(int,error) that itself calls io.Reader.Read on one of its fields
 	adapters := map[*types.TypeName]*fn{}
 	for _, s := range sites {
